@@ -111,6 +111,26 @@ pub mod verif {
     pub fn write_uint7(dst: &mut Vec<u8>, n: u32) -> io::Result<()> {
         crate::io::writer::num::write_uint7(dst, n)
     }
+
+    /// The size the container writer declares for an ITF8-coded integer.
+    pub fn itf8_size_of(n: i32) -> usize {
+        crate::io::writer::container::itf8_size_of(n)
+    }
+
+    /// An uncompressed external block holding `src`: (the size the container writer accounts
+    /// for it in `length` and the landmarks, the bytes `write_block` writes).
+    pub fn block_size_and_bytes(content_id: i32, src: &[u8]) -> io::Result<(usize, Vec<u8>)> {
+        use crate::{
+            container::block::ContentType,
+            io::writer::container::{Block, write_block},
+        };
+
+        let block = Block::encode(ContentType::ExternalData, content_id, None, src)?;
+        let size = block.size()?;
+        let mut dst = Vec::new();
+        write_block(&mut dst, &block)?;
+        Ok((size, dst))
+    }
 }
 
 const MAGIC_NUMBER: [u8; 4] = *b"CRAM";
